@@ -22,11 +22,18 @@ try:
         lines = [l for l in r.stdout.splitlines() if l.startswith(("VIOLATION", "NOT-EST", "KNOWN", "property=", "CHECKER"))]
         print(f"--- {name} / {pid}: exit {r.returncode}")
         print("\n".join(l[:300] for l in lines[:8]))
+        lines = [l for l in r.stdout.splitlines() if l.startswith(("VIOLATION", "NOT-EST", "KNOWN", "property=", "CHECKER"))]
         if r.returncode not in (0, 1):
             print(r.stderr[-1500:])
-        res[pid] = {"exit": r.returncode, "first": lines[0][:300] if lines else ""}
+        res[pid] = {"exit": r.returncode, "first": lines[0][:300] if lines else "",
+                    "obligations": [l.split("obligation=")[1].split()[0][:200] for l in lines if l.startswith("VIOLATION") and "obligation=" in l][:4],
+                    "bounded": sorted({l.split("bounded-check=")[1].split()[0] for l in lines if l.startswith("VIOLATION") and "bounded-check=" in l})[:4],
+                    "not_established": [l.split(" ", 2)[2][:160] for l in lines if l.startswith("NOT-EST")][:3]}
 finally:
     shutil.rmtree(tmp)
+    if "--keep-replays" not in sys.argv:
+        import re
+        shutil.rmtree(os.path.join("/verif/.cache/scratch-runs", re.sub(r"[^A-Za-z0-9_.-]+", "_", tmp + "/src").strip("_")), ignore_errors=True)
 if "--record" in sys.argv:
     mp = f"/verif/seeded/{name}/meta.json"
     meta = json.load(open(mp))
